@@ -79,6 +79,11 @@ def gen_scripts(tier, seed):
         scripts = keep + r.sample(seqs, 140) + [("seq-e-first", "e%d,o%d" % (4 * PIPE, 4 * PIPE)), ("seq-o-first", "o%d,e%d" % (4 * PIPE, 4 * PIPE)),
                                                 ("seq-e-first", "e200000,o1"), ("seq-o-first", "o200000,e1")]
     cases = []
+    # the child closes both streams and lives on until it learns that the parent's call has returned (spawn API only):
+    # "returns once both streams close", not "once the child has exited"
+    for s in ["co,ce,g,x7", "o100,e50,co,ce,g,x7", "o%d,co,d5,e%d,ce,g,x7" % (2 * PIPE + 17, PIPE + 1), "e10|o%d,co,ce,g,x7" % (PIPE + 1)]:
+        for w in ("plain", "mapped"):
+            cases.append({"class": "streams-closed-child-lives-on", "script": s, "writer": w, "api": "spawn"})
     for i, (cls, s) in enumerate(scripts):
         writer = ["plain", "slow", "trickle", "mapped"][i % 4] if sum(parse_script(s)[:2]) < 3 * PIPE else ["plain", "mapped", "slow"][i % 3]
         api = ["output", "spawn"][(i // 3) % 2]
@@ -96,10 +101,11 @@ def run_stream_case(arg):
     except subprocess.TimeoutExpired:
         return case, {"harness_timeout": True}
     finally:
-        try:
-            os.unlink(pidfile)
-        except OSError:
-            pass
+        for p_ in (pidfile, pidfile + ".go"):
+            try:
+                os.unlink(p_)
+            except OSError:
+                pass
     if p.returncode != 0 or not p.stdout.strip():
         return case, {"harness_error": p.stderr.decode(errors="replace")[-500:]}
     return case, json.loads(p.stdout)
@@ -149,6 +155,10 @@ def judge_stream(case, rep, res):
                 res.violation("streams:output-%s" % stream, "output_and_write_streams(%r): Output.%s has %d bytes, the child wrote %d"
                               % (case["script"], stream, len(got), len(want[stream])), {"kind": "stream", "case": case})
                 return
+    if case["class"] == "streams-closed-child-lives-on" and rep["code"] == 9:
+        res.violation("streams:returns-only-at-exit", "spawn_and_write_streams(%r) did not return when both streams were closed: the child, which waits for that return before it exits, gave up after 6 s" % case["script"],
+                      {"kind": "stream", "case": case})
+        return
     if rep["code"] != code:
         res.violation("streams:status", "%s(%r): exit status %r, child exited with %d" % (case["api"], case["script"], rep["code"], code), {"kind": "stream", "case": case})
         return
